@@ -64,6 +64,10 @@ func main() {
 		Child:         child,
 		ClassifyDeath: classifyDeath,
 		Post: func(c *ev.Check, outs []*run.Outcome) {
+			c.Require("max.archive_file_bytes", 4<<20+1)             // a history file larger than 4 MiB was restarted on
+			c.Require("max.devices_in_rotation", 130)                // a single record larger than 4 MiB
+			c.Require("max.archived_weeks", 17)                      // a long archive
+			c.Require("max.accepted_reports_between_restarts", 1001) // more than the recent-report list holds
 			mx := map[string]float64{}
 			for _, o := range outs {
 				if o != nil && o.WallS > mx[o.Batch.Kind] {
@@ -75,7 +79,8 @@ func main() {
 				"tick.expect0", "tick.expect1", "tick.at3200", "tick.at3201", "restart.at3999", "restart.at4000",
 				"query.archived", "query.archived.fn", "fn.negated_slots", "query.live0", "query.live1", "query.future", "query.misaligned",
 				"immutability_rechecks", "reports.accepted_fresh", "reports.equivocation", "bans", "authorizations", "restarts", "file_checks",
-				"fault.outcome_observed", "fault.restart_in_fresh_process"} {
+				"fault.outcome_observed", "fault.restart_in_fresh_process", "histories.deep", "histories.big",
+				"restart.expired_device_has_reports", "restart.unexpired_device_has_reports", "restart.device_without_expiration_has_reports"} {
 				c.Require(k, 1)
 			}
 		},
@@ -120,6 +125,9 @@ func plan(tier string, seed int64) []run.Batch {
 			bs = append(bs, run.Batch{Kind: "bigrot", Seed: seed*100000 + 9000 + int64(i), N: 1, TimeoutS: 600, Params: map[string]string{"devices": "200"}})
 		}
 		for i := 0; i < 4; i++ {
+			bs = append(bs, run.Batch{Kind: "deep", Seed: seed*100000 + 9700 + int64(i), N: 1, TimeoutS: 600, Params: map[string]string{"devices": fmt.Sprint(10 + 2*i), "rounds": fmt.Sprint(6 + i)}})
+		}
+		for i := 0; i < 4; i++ {
 			bs = append(bs, run.Batch{Kind: "diskfault", Seed: seed*100000 + 9500 + int64(i), N: 1, TimeoutS: 900})
 		}
 		return bs
@@ -127,7 +135,8 @@ func plan(tier string, seed int64) []run.Batch {
 	for i := 0; i < 10; i++ {
 		bs = append(bs, run.Batch{Kind: "histories", Seed: seed*100000 + int64(i), N: 4, TimeoutS: 400})
 	}
-	bs = append(bs, run.Batch{Kind: "bigrot", Seed: seed*100000 + 9000, N: 1, TimeoutS: 400, Params: map[string]string{"devices": "40"}})
+	bs = append(bs, run.Batch{Kind: "bigrot", Seed: seed*100000 + 9000, N: 1, TimeoutS: 400, Params: map[string]string{"devices": "136"}})
+	bs = append(bs, run.Batch{Kind: "deep", Seed: seed*100000 + 9700, N: 1, TimeoutS: 400, Params: map[string]string{"devices": "12", "rounds": "6"}})
 	bs = append(bs, run.Batch{Kind: "diskfault", Seed: seed*100000 + 9500, N: 1, TimeoutS: 600})
 	return bs
 }
@@ -208,24 +217,25 @@ type cell struct {
 
 type hist struct {
 	*drv.World
-	r       *ev.Result
-	rng     *rand.Rand
-	b       run.Batch
-	tag     string
-	devs    map[uint32]*drv.Dev // authorized and not banned (model)
-	gone    map[uint32]bool     // banned ids (model)
-	next    uint32
-	pending map[uint32]*drv.Dev
-	mdl     map[uint32]map[uint32]*cell // device → absolute slot → cell
-	off     uint32                      // model window offset
-	arch    []refenc.Stats              // records produced by judged rotations, as stored
-	archB   []byte                      // reference serialization of arch
-	first   map[int]*refenc.Stats       // first plain response served per archived week
-	ops     []string
-	opn     int
-	keepDir bool // the server directory outlives this process (disk-fault scenario)
-	dead    bool // stop this history (precondition failed / server gone)
-	fatal   bool // stop the child (a server may still be running)
+	r        *ev.Result
+	rng      *rand.Rand
+	b        run.Batch
+	tag      string
+	devs     map[uint32]*drv.Dev // authorized and not banned (model)
+	gone     map[uint32]bool     // banned ids (model)
+	next     uint32
+	pending  map[uint32]*drv.Dev
+	mdl      map[uint32]map[uint32]*cell // device → absolute slot → cell
+	off      uint32                      // model window offset
+	arch     []refenc.Stats              // records produced by judged rotations, as stored
+	archB    []byte                      // reference serialization of arch
+	first    map[int]*refenc.Stats       // first plain response served per archived week
+	ops      []string
+	opn      int
+	keepDir  bool // the server directory outlives this process (disk-fault scenario)
+	accepted int  // accepted reports since the last (re)start
+	dead     bool // stop this history (precondition failed / server gone)
+	fatal    bool // stop the child (a server may still be running)
 }
 
 func (h *hist) op(format string, a ...interface{}) {
@@ -333,6 +343,9 @@ func (h *hist) deliver(d *drv.Dev, rep refenc.Report, kind string) {
 		if c == nil {
 			c = &cell{}
 			h.mdl[d.ID][rep.Slot] = c
+		}
+		if c.state == 0 || (c.state == 1 && c.rep != rep) {
+			h.accepted++ // enters the server's bounded recent-report list
 		}
 		switch c.state {
 		case 0:
@@ -458,7 +471,16 @@ func (h *hist) addDevice(id uint32, capa uint64) (*drv.Dev, error) {
 	d := h.pending[id]
 	if d == nil {
 		k := refenc.GenKey(h.rng)
-		d = &drv.Dev{ID: id, Key: k, Auth: h.MkAuth(id, k.Pub, capa)}
+		a := h.MkAuth(id, k.Pub, capa)
+		// expirations inside the simulated time range, none at all, and far away: no report
+		// rule and no start-up rule depends on them
+		switch x := h.rng.Intn(10); {
+		case x < 2:
+			a.Expiration = 0
+		case x < 6:
+			a.Expiration = 1 + uint32(h.rng.Intn(8000))
+		}
+		d = &drv.Dev{ID: id, Key: k, Auth: a.Signed(h.GCA.Priv)}
 		h.pending[id] = d
 	}
 	st, body, err := h.Authorize(d.Auth)
@@ -588,6 +610,7 @@ func (h *hist) judgeRotation(pre, post *server.VerifSnap, kind string) {
 func (h *hist) checkFile(when string) {
 	b := h.ReadFile("allDeviceStats.dat")
 	h.r.Count("file_checks", 1)
+	h.r.Max("max.archive_file_bytes", int64(len(b)))
 	if !bytes.Equal(b, h.archB) {
 		detail := fmt.Sprintf("file has %d bytes, reference serialization of the %d judged records has %d", len(b), len(h.arch), len(h.archB))
 		if recs, err := refenc.ParseStatsStream(b); err != nil {
@@ -658,6 +681,20 @@ func (h *hist) restart(newClock uint32) {
 	before := h.S.VerifSnapshot(true)
 	k := wmodel.CatchUps(newClock, h.off)
 	delta := int64(newClock) - int64(h.off)
+	for _, d := range h.devs {
+		if e := d.Auth.Expiration; len(h.mdl[d.ID]) > 0 {
+			switch {
+			case e == 0:
+				h.r.Count("restart.device_without_expiration_has_reports", 1)
+			case newClock >= e:
+				h.r.Count("restart.expired_device_has_reports", 1)
+			default:
+				h.r.Count("restart.unexpired_device_has_reports", 1)
+			}
+		}
+	}
+	h.r.Max("max.accepted_reports_between_restarts", int64(h.accepted))
+	h.accepted = 0
 	h.op("restart clock=%d now-offset=%d expect-catchup=%d", newClock, delta, k)
 	if err, pan := guarded(h.Close); err != nil || pan != nil {
 		h.viol("shutdown-failed", nil, "Close failed: err=%v panic=%v", err, pan)
@@ -1256,6 +1293,8 @@ func child(b run.Batch, r *ev.Result) {
 		childFaultA(b, r)
 	case "diskfault-b":
 		childFaultB(b, r)
+	case "deep":
+		childDeep(b, r)
 	case "bigrot":
 		var nd int
 		fmt.Sscan(b.P("devices"), &nd)
@@ -1267,6 +1306,19 @@ func child(b run.Batch, r *ev.Result) {
 		for w := 0; w < 2 && !h.dead; w++ {
 			h.week(true)
 		}
+		// one record of this many devices is larger than any read-ahead buffer: restart on it,
+		// then every archived week once more
+		if !h.dead {
+			h.restart(drv.Clock())
+		}
+		h.recheck(false)
+		for i := range h.arch {
+			if h.dead {
+				break
+			}
+			h.queryArchived(i, i%2 == 0)
+		}
+		h.recheck(false)
 		r.Count("histories.big", 1)
 		r.Sample(map[string]interface{}{"history": h.tag, "devices": nd, "archived_weeks": len(h.arch), "ops": len(h.ops), "last_ops": tailOps(h.ops, 6)})
 	default:
@@ -1306,6 +1358,61 @@ func child(b run.Batch, r *ev.Result) {
 			}
 		}
 	}
+}
+
+// childDeep: a dozen devices over many weeks, so that allDeviceStats.dat grows
+// beyond 4 MiB while every single record stays small; more than a thousand
+// accepted reports before the first restart; restarts (three catch-up
+// rotations each) on the growing file, every rotation and every archived
+// week judged as usual.
+func childDeep(b run.Batch, r *ev.Result) {
+	var nd, rounds int
+	fmt.Sscan(b.P("devices"), &nd)
+	fmt.Sscan(b.P("rounds"), &rounds)
+	h := newHist(b, r, 0, nd)
+	if h == nil {
+		return
+	}
+	defer h.stop()
+	h.setClock(uint32(440 + h.rng.Intn(100)))
+	h.burst(1500)
+	h.stepImpact()
+	if !h.dead {
+		h.restart(drv.Clock())
+	}
+	if !h.dead {
+		h.queryLive(0, false)
+		h.burst(200) // on top of the reloaded window
+		h.queryLive(0, false)
+	}
+	for i := 0; i < rounds && !h.dead; i++ {
+		h.burst(40 + h.rng.Intn(40))
+		h.stepImpact()
+		if h.dead {
+			break
+		}
+		c := h.off + 4000 + 2*wmodel.Week
+		if i%2 == 1 {
+			c += uint32(h.rng.Intn(30))
+		}
+		h.restart(c) // three catch-up rotations, each judged by the rotation oracle
+		h.newWeeks()
+		h.recheck(true)
+	}
+	if !h.dead {
+		h.restart(drv.Clock())
+	}
+	h.recheck(false)
+	for i := range h.arch {
+		if h.dead {
+			break
+		}
+		h.queryArchived(i, i%3 == 0)
+	}
+	h.recheck(false)
+	r.Count("histories.deep", 1)
+	r.Max("max.archived_weeks", int64(len(h.arch)))
+	r.Sample(map[string]interface{}{"history": h.tag, "devices": nd, "archived_weeks": len(h.arch), "archive_file_bytes": len(h.archB), "ops": len(h.ops), "last_ops": tailOps(h.ops, 4)})
 }
 
 func tailOps(ops []string, n int) []string {
